@@ -1,7 +1,7 @@
 (* C10 driver.
    input  (H tp ...)            tp = (marker ...), marker = (kind name ...), kind 0=Onset 1=Offset 2=Inset,
                                 name = (codepoints)
-          (F perm1 perm2 row ...)  perm = N | (i ...); row = (onset invalid (group ...));
+          (F fixed perm1 perm2 row ...)  perm = N | (i ...); row = (onset invalid (group ...));
                                 group = (delay marker) with delay = N | int, marker = N | (kind name ...)
    output (ok ((state) (issue ...)) ...)                 for H, one pair per time point
           (ok (state) ((orig (issue ...)) ...)) | (exn E) for F
@@ -35,8 +35,8 @@ let () = main_loop (fun x ->
   | A "H" :: tps ->
     let h = List.map (fun tp -> List.map sx_marker (sx_list tp)) tps in
     L (A "ok" :: List.map (fun (st, iss) -> L [state_sx st; L (List.map issue_sx iss)]) (run_trace state0 h))
-  | A "F" :: p1 :: p2 :: rows ->
-    (match process_file (sx_perm p1) (sx_perm p2) (List.map sx_row rows) with
+  | A "F" :: fx :: p1 :: p2 :: rows ->
+    (match process_file (sx_bool fx) (sx_perm p1) (sx_perm p2) (List.map sx_row rows) with
      | Exn e -> L [A "exn"; exn_sx e]
      | Ok (st, out) ->
        L [A "ok"; state_sx st;
